@@ -415,7 +415,8 @@ fn getter_cases(rng: &mut Rng, thorough: bool) {
         };
         let ops = vec![op.clone(), "rem".to_string(), op.clone()];
         for p in patterns(*size, rng) {
-            for extra in [&[][..], &[0xAB, 0xCD][..]] {
+            // (the long tail keeps at least a machine word in the first chunk whatever the width: word-sized fast paths)
+            for extra in [&[][..], &[0xAB, 0xCD][..], &[0x91, 0xA2, 0xB3, 0xC4, 0xD5, 0xE6, 0xF7, 0x08, 0x19, 0x2A, 0x3B, 0x4C][..]] {
                 for t in shapes(&p, extra, rng, thorough) {
                     run_case(&t, &ops);
                 }
